@@ -69,6 +69,7 @@ type Contract struct {
 	CallMods     []Clause
 	CallRequires []Clause
 	callView     *Contract
+	Claims        []string // `claims <classes>`: only obligations of these classes are generated for the function; everything else about it is explicitly NOT claimed (reported as partially covered)
 	Splits        []Clause // `split E`: every obligation is proved once under E and once under !E (entry state)
 	AssumePure    []string // callees without contract assumed not to panic and to have no heap effect
 	Abstract   bool  // body translated with havoc tolerance; only listed obligations
@@ -85,7 +86,7 @@ type Contract struct {
 
 var clauseKW = map[string]bool{"requires": true, "ensures": true, "modifies": true, "nopanic": true, "maypanic": true,
 	"panics_when": true, "trusted": true, "pure": true, "noalloc": true, "mayalloc": true, "terminates": true, "decreases": true, "alloc": true,
-	"loop": true, "at": true, "func": true, "extern": true, "pkg": true, "uses": true, "abstract": true, "unreachable": true, "lemma": true, "lemma_ret": true, "pred": true, "global": true, "assume_nopanic": true, "assume_pure": true, "split": true}
+	"loop": true, "at": true, "func": true, "extern": true, "pkg": true, "uses": true, "abstract": true, "unreachable": true, "lemma": true, "lemma_ret": true, "pred": true, "global": true, "assume_nopanic": true, "assume_pure": true, "split": true, "claims": true}
 
 var reImp = regexp.MustCompile(`<==>|==>`)
 
@@ -426,6 +427,8 @@ func (c *Contract) addClause(kw, rest, path string, line int) error {
 		} else {
 			c.LemmasRet = append(c.LemmasRet, cl)
 		}
+	case "claims":
+		c.Claims = append(c.Claims, strings.Fields(rest)...)
 	case "split":
 		cl, err := mkClause(rest, path, line)
 		if err != nil {
